@@ -518,6 +518,10 @@ class J1939_22:
             return
 
         src_address = mid.source_address
+        if src_address == ParameterGroupNumber.Address.GLOBAL:
+            # 255 is not a source address; a CTS / EOM_ACK "from 255" would be matched against our own
+            # broadcast (BAM) sessions, which are keyed by the destination 255
+            return
         control_byte  = data[0] & 0xF
         session_num   = (data[0] >> 4) & 0xF
         message_size  = (data[1]  & 0xFF) | ((data[2]  & 0xFF) << 8) | ((data[3] & 0xFF)  << 16)
